@@ -54,6 +54,10 @@ enum Op {
     Drop,
     /// application loop: receive until release (answer it), abort or error
     Serve,
+    /// a message of n bytes through send_pdata (write_all + finish); sync sides only
+    Stream(u32),
+    /// one message through receive_pdata (read_to_end); sync sides only
+    RecvStream,
 }
 
 fn gen_script(w: &mut Tape) -> Vec<Op> {
@@ -153,6 +157,22 @@ macro_rules! play_sync {
                     }
                     Err(e) => (false, e.to_string(), false),
                 },
+                Op::Stream(n) => {
+                    use std::io::Write;
+                    let mut wr = assoc.as_mut().unwrap().send_pdata(1);
+                    let r = wr.write_all(&vec![0x42u8; *n as usize]).and_then(|_| wr.finish());
+                    (r.is_ok(), r.err().map(|e| e.to_string()).unwrap_or_default(), false)
+                }
+                Op::RecvStream => {
+                    use std::io::Read;
+                    let mut v = Vec::new();
+                    let r = assoc.as_mut().unwrap().receive_pdata().read_to_end(&mut v);
+                    if r.is_ok() {
+                        // (the oracle adds the further PDUs of the message)
+                        $res.lock().unwrap().consumed += 1;
+                    }
+                    (r.is_ok(), if r.is_ok() { v.len().to_string() } else { r.err().map(|e| e.to_string()).unwrap_or_default() }, false)
+                }
                 Op::Release => {
                     let r = assoc.take().unwrap().release();
                     (r.is_ok(), r.err().map(|e| e.to_string()).unwrap_or_default(), true)
@@ -230,6 +250,8 @@ macro_rules! play_async {
                     }
                     Err(e) => (false, e.to_string(), false),
                 },
+                // streams are scripted for synchronous sides only (AsyncPDataWriter needs a multi-thread runtime)
+                Op::Stream(_) | Op::RecvStream => (true, "skipped".to_string(), false),
                 Op::Release => {
                     let r = assoc.take().unwrap().release().await;
                     (r.is_ok(), r.err().map(|e| e.to_string()).unwrap_or_default(), true)
@@ -391,6 +413,8 @@ enum StubOp {
     /// behave: receive until release (answer it) or abort
     Serve,
     Close,
+    /// receive P-DATA PDUs until one carries the last-fragment flag
+    RecvMsg,
 }
 
 fn gen_stub_script(w: &mut Tape) -> Vec<StubOp> {
@@ -458,6 +482,21 @@ fn spawn_stub(fd: i32, as_requestor: bool, script: Vec<StubOp>) {
                         break;
                     }
                 }
+                StubOp::RecvMsg => loop {
+                    match raw_recv_pdu(fd, &mut buf) {
+                        Some((4, b)) => {
+                            if let Ok(RPdu::PData(v)) = rp::parse_body(4, &b) {
+                                if v.iter().any(|x| x.header & 2 == 2) {
+                                    break;
+                                }
+                            }
+                        }
+                        _ => {
+                            raw_close(fd);
+                            return;
+                        }
+                    }
+                },
                 StubOp::Serve => {
                     loop {
                         match raw_recv_pdu(fd, &mut buf) {
@@ -545,9 +584,72 @@ fn check_side(env: &EnvRef, who: &str, side: &Side, ep: &simnet::Endpoint, peer:
     // --- what an Ok means: sends are on the wire in order, receives return the peer's PDUs in order
     //     (judged up to the first failed operation: a failed send may leave a partial PDU behind)
     let mut wire_idx = 0usize;
-    for l in &side.log {
+    // a successful RecvStream consumed k PDUs where the node counted one: the k - 1 others, per log entry
+    let mut extra_consumed = vec![0usize; side.log.len() + 1];
+    for (li, l) in side.log.iter().enumerate() {
+        extra_consumed[li + 1] = extra_consumed[li];
         if !l.ok {
             break;
+        }
+        if l.op.starts_with("Stream(") {
+            let n: usize = l.op[7..l.op.len() - 1].parse().unwrap_or(0);
+            let mut total = 0usize;
+            let mut closed = false;
+            while let Some((RPdu::PData(pdvs), _, done)) = sent.get(wire_idx) {
+                if *done > l.seq_end {
+                    break;
+                }
+                wire_idx += 1;
+                total += pdvs.iter().map(|v| v.data.len()).sum::<usize>();
+                if pdvs.iter().any(|v| v.header & 2 == 2) {
+                    closed = true;
+                    break;
+                }
+            }
+            check!(
+                closed && total == n,
+                "ok-means-done",
+                format!("c30:{}:stream-ok-not-on-wire", who),
+                "{}: send_pdata of {} bytes (write_all + finish) returned Ok but by then the wire holds {} payload bytes of it, message closed: {}",
+                who,
+                n,
+                total,
+                closed
+            );
+            env.probe("stream-ok-on-wire");
+            continue;
+        }
+        if l.op == "RecvStream" {
+            let want: usize = l.detail.parse().unwrap_or(usize::MAX);
+            let mut idx = l.consumed_before + extra_consumed[li];
+            let mut total = 0usize;
+            let mut closed = false;
+            let mut k = 0usize;
+            while let Some((RPdu::PData(pdvs), s)) = recvd.get(idx) {
+                if *s > l.seq_end {
+                    break;
+                }
+                idx += 1;
+                k += 1;
+                total += pdvs.iter().map(|v| v.data.len()).sum::<usize>();
+                if pdvs.iter().any(|v| v.header & 2 == 2) {
+                    closed = true;
+                    break;
+                }
+            }
+            check!(
+                closed && total == want,
+                "ok-means-done",
+                format!("c30:{}:receive-pdata-ok-wrong", who),
+                "{}: receive_pdata().read_to_end returned Ok with {} bytes, but the peer's message as delivered by then has {} bytes, complete: {}",
+                who,
+                want,
+                total,
+                closed
+            );
+            extra_consumed[li + 1] += k.saturating_sub(1);
+            env.probe("receive-pdata-ok-complete");
+            continue;
         }
         if l.op.starts_with("Send(") {
             let n: usize = l.op[5..l.op.len() - 1].parse().unwrap_or(0);
@@ -566,7 +668,7 @@ fn check_side(env: &EnvRef, who: &str, side: &Side, ep: &simnet::Endpoint, peer:
             wire_idx += 1;
             env.probe("send-ok-on-wire");
         } else if l.op == "Recv" {
-            match recvd.get(l.consumed_before) {
+            match recvd.get(l.consumed_before + extra_consumed[li]) {
                 Some((p, s)) if ref_kind(p) == l.detail && *s <= l.seq_end => {}
                 other => fail!(
                     "ok-means-done",
@@ -585,10 +687,10 @@ fn check_side(env: &EnvRef, who: &str, side: &Side, ep: &simnet::Endpoint, peer:
         }
     }
     // --- the API outcomes
-    for l in &side.log {
+    for (li, l) in side.log.iter().enumerate() {
         if l.op == "Release" {
             // what was the next PDU from the peer, after those this side had consumed, by the time release returned?
-            let next = recvd.get(l.consumed_before).filter(|(_, s)| *s <= l.seq_end);
+            let next = recvd.get(l.consumed_before + extra_consumed[li.min(extra_consumed.len() - 1)]).filter(|(_, s)| *s <= l.seq_end);
             let next_kind = next.map(|(p, _)| p.kind()).unwrap_or("nothing (connection closed or failed)");
             match next {
                 Some((RPdu::ReleaseRp, _)) => {
@@ -983,8 +1085,24 @@ pub fn run_assoc_faults(cfgi: usize, w: &mut Tape, env: &EnvRef) -> RunResult {
     // a small conversation: the stub answers every data PDU with one of its own and serves the release
     let n1 = w.below(200);
     let n2 = w.below(40);
-    let variant = w.below(4);
+    let variant = if is_async { w.below(4) } else { w.below(6) };
+    let msg = |n: u32, parts: u32| -> Vec<StubOp> {
+        // one message of n bytes in `parts` P-DATA PDUs, the last flagged
+        let parts = parts.max(1);
+        (0..parts).map(|i| StubOp::Send(RPdu::PData(vec![RPdv { ctx: 1, header: if i + 1 == parts { 2 } else { 0 }, data: vec![9; (n / parts) as usize] }]))).collect()
+    };
     let (script, stub): (Vec<Op>, Vec<StubOp>) = match variant {
+        4 => {
+            let mut st = vec![StubOp::RecvMsg];
+            st.extend(msg(n2 * 3, 1 + n2 % 3));
+            st.extend([StubOp::Serve, StubOp::Close]);
+            (vec![Op::Stream(n1 * 40), Op::RecvStream, Op::Release], st)
+        }
+        5 => {
+            let mut st = msg(n1 * 4, 1 + n1 % 4);
+            st.extend([StubOp::RecvMsg, StubOp::RecvOne, StubOp::Close]);
+            (vec![Op::RecvStream, Op::Stream(n2), Op::Abort], st)
+        }
         0 => (vec![Op::Send(n1), Op::Recv, Op::Release], vec![StubOp::RecvOne, StubOp::Send(RPdu::PData(vec![RPdv { ctx: 1, header: 2, data: vec![9; n2 as usize] }])), StubOp::Serve, StubOp::Close]),
         1 => (vec![Op::Recv, Op::Send(n1), Op::Abort], vec![StubOp::Send(RPdu::PData(vec![RPdv { ctx: 1, header: 2, data: vec![9; n2 as usize] }])), StubOp::RecvOne, StubOp::RecvOne, StubOp::Close]),
         2 => (vec![Op::Send(n1), Op::Send(n2), Op::Serve], vec![StubOp::RecvOne, StubOp::RecvOne, StubOp::Send(RPdu::ReleaseRq), StubOp::RecvOne, StubOp::Close]),
